@@ -126,6 +126,7 @@ Proof.
   - intros s e H. rewrite fail_hooks. exact H.
   - intros s e _ H. exact H.
   - apply callback_from_emit; [intros s e H; rewrite fail_hooks; exact H|intros s a kind r hold sw run H; exact H].
+  - intros s kind mkid x _ H. exact H.
   - intros s e _ H. exact H.
   - intros s mkid x ag mk buy p v ttlv m' rc tag _ _ H. exact H.
   - intros s mkid x i m' rc _ _ H. exact H.
